@@ -151,6 +151,7 @@ class _Gen:
         self.counters = ["k", "m"]
         self.budget = size                     # remaining compound statements
         self.hard = 0                          # symbolic*symbolic multiplications / divisions so far
+        self.ndiv = 0                          # floor divisions so far (at most 2 per function: solver effort)
 
     # -- expressions
     def const(self):
@@ -172,6 +173,11 @@ class _Gen:
             self.feats.add("call")
             return f"g({self.expr(env, depth + 1)}, {self.leaf(env)})"
         op = self.r.choices(OPS, weights=[35, 30, 20, 15])[0]
+        if op == "//":
+            if self.ndiv >= 2:
+                op = "-"
+            else:
+                self.ndiv += 1
         x = self.expr(env, depth + 1)
         y = self.expr(env, depth + 1)
         if _is_const(x) and _is_const(y) and env:
@@ -228,6 +234,11 @@ class _Gen:
             self.feats.add("augassign")
             v = self.r.choice(targets)
             op = self.r.choices(OPS, weights=[40, 30, 18, 12])[0]
+            if op == "//":
+                if self.ndiv >= 2:
+                    op = "+"
+                else:
+                    self.ndiv += 1
             self.feats.add(OPNAME[op])
             if op in ("*", "//"):
                 e = self.r.choice(["2", "3", "5", "(0 - 2)", "(0 - 3)"]) if (self.hard >= 1 or self.r.random() < 0.7) else self.leaf(env)
